@@ -722,8 +722,10 @@ void TypeChecker::visitEdge(edge_t& edge)
 
     // guard
     bool strictBound = false;
+    bool guardWellTyped = false;
     if (!edge.guard.empty()) {
         if (checkExpression(edge.guard)) {
+            guardWellTyped = is_guard(edge.guard);
             if (!is_guard(edge.guard)) {
                 std::string s = "$Expression_of_type ";
                 s += edge.guard.get_type().str();
@@ -753,7 +755,8 @@ void TypeChecker::visitEdge(edge_t& edge)
             } else if (edge.sync.changes_any_variable()) {
                 handleError(edge.sync, "$Synchronisation_must_be_side-effect_free");
             } else {
-                bool hasClockGuard = !edge.guard.empty() && !is_integral(edge.guard);
+                // an ill-typed guard has already been reported where it stands; it is not a clock guard
+                bool hasClockGuard = guardWellTyped && !is_integral(edge.guard);
                 bool isUrgent = channel.is(URGENT);
                 bool receivesBroadcast = channel.is(BROADCAST) && edge.sync.get_sync() == SYNC_QUE;
 
